@@ -1,24 +1,30 @@
-"""one-off: copies confirmed seeded changes from the sub-agents' scratch worktrees into /verif/seeded/<id>/"""
-import json, os, shutil, subprocess, sys
+"""copies confirmed seeded changes from the sub-agents' scratch worktrees into /verif/seeded/<id>/
+usage: import_seeds.py <round> <confirm-log> <P>...   (the k-th change of property P becomes <P>-<n+k>, n = changes already present)"""
+import json, os, shutil, subprocess, sys, glob
 head = subprocess.check_output(["git", "-C", "/repo", "rev-parse", "--short", "HEAD"], text=True).strip()
-for P in sys.argv[1:]:
+rnd, log = int(sys.argv[1]), sys.argv[2]
+for P in sys.argv[3:]:
+    n = len([d for d in glob.glob(f"/verif/seeded/{P}-*") if json.load(open(d + "/meta.json")).get("round", 1) != rnd])
     for k in (1, 2):
         src = f"/tmp/wt_{P}/seed_out/{k}"
         if not os.path.exists(src + "/patch.diff"):
             continue
-        line = [l for l in open("/tmp/seedconf/" + {"C02":"A","C04":"A","C06":"A","C10":"B","C13":"B","C17":"B"}.get(P,"C") + ".log") if l.startswith(f"{P}/{k}:")]
-        assert line and "clean rc=0 patched rc=1 tests rc=0" in line[0], (P, k, line)
-        dst = f"/verif/seeded/{P}-{k}"
+        line = [l for l in open(log) if l.startswith(f"{P}/{k}:")]
+        if not (line and "clean rc=0 patched rc=1 tests rc=0" in line[-1]):
+            print("NOT CONFIRMED, skipped:", P, k, line[-1:] )
+            continue
+        dst = f"/verif/seeded/{P}-{n + k}"
         os.makedirs(dst, exist_ok=True)
         shutil.copy(src + "/patch.diff", dst + "/patch.diff")
         shutil.copy(src + "/demo.py", dst + "/demo.py")
         notes = open(src + "/notes.md").read() if os.path.exists(src + "/notes.md") else ""
         open(dst + "/notes.md", "w").write(notes)
         files = sorted({l[6:].strip() for l in open(src + "/patch.diff") if l.startswith("+++ b/")})
-        meta = {"id": f"{P}-{k}", "property": P, "files": files, "origin": "fresh sub-agent given only the property text and its own scratch worktree",
+        meta = {"id": f"{P}-{n + k}", "property": P, "files": files, "round": rnd,
+                "origin": "fresh sub-agent given only the property text and its own scratch worktree",
                 "needs_to_manifest": notes.strip()[:1500],
                 "confirmed": {"base": head, "how": "scratch worktree at the base commit: demo.py exits 0 without the patch and 1 with it; the pinned test suite "
-                              "(pytest -q tests) passes with the patch applied", "result": line[0].strip()},
+                              "(pytest -q tests) passes with the patch applied", "result": line[-1].strip()},
                 "checks": {}}
         if os.path.exists(dst + "/meta.json"):
             meta["checks"] = json.load(open(dst + "/meta.json")).get("checks", {})
